@@ -163,22 +163,38 @@ def find_quantity(fn):
     return list(cands)[0]
 
 
-def take_path(stmts, env, fnname):
+class StaleTest(ast.stmt):
+    """Marker: the controlling variable was reassigned after a range test on the executed path."""
+    _fields = ()
+
+
+def take_path(stmts, env, fnname, state=None):
     """Follow the if/elif chain of a statement list for a concrete quantity value.
     Returns (leaf statements executed in order, excluding the Ifs themselves)."""
     out = []
+    state = state if state is not None else {'tested': None}
     for st in stmts:
         if isinstance(st, ast.If):
             try:
                 c = fold(st.test, env)
             except Unfoldable:
                 raise AnalysisError('%s: cannot fold condition %s' % (fnname, unparse(st.test)))
-            out.extend(take_path(st.body if c else st.orelse, env, fnname))
+            if any(k in unparse(st.test) for k in env if isinstance(k, str) and k.startswith('len(')):
+                state['tested'] = st
+            out.extend(take_path(st.body if c else st.orelse, env, fnname, state))
         elif isinstance(st, (ast.Global, ast.Pass)):
             continue
         elif isinstance(st, ast.Expr) and isinstance(st.value, ast.Constant):
             continue
         else:
+            if isinstance(st, ast.Assign) and state['tested'] is not None:
+                tv = {unparse(t) for t in st.targets}
+                if any(k.startswith('len(') and k[4:-1].split('.')[0] in tv for k in env if isinstance(k, str)):
+                    m = StaleTest()
+                    m.lineno = st.lineno
+                    m.test = state['tested']
+                    m.assign = st
+                    out.append(m)
             out.append(st)
         if out and isinstance(out[-1], (ast.Raise, ast.Return)):
             break
@@ -293,6 +309,13 @@ def check_writer(repo, res, fname, family, domain, emitted):
         inside = (lo is not None and hi is not None and lo >= domain[0] and hi <= domain[1])
         outside = (hi is not None and hi < domain[0]) or (lo is not None and lo > domain[1])
         line = leaf[0].lineno if leaf else fn.lineno
+        stale = [s for s in leaf if isinstance(s, StaleTest)]
+        if stale and inside:
+            res.check('C14-R1', '%s %s tested value is the written value' % (fname, rng), False, F, stale[0].lineno,
+                      '%s: the range test `%s` is made on %s before `%s`; the header then carries the length of the new value: '
+                      'a %s whose length changes under that statement (non-ASCII text under UTF-8 encoding) gets a format that '
+                      'cannot hold it' % (fname, unparse(stale[0].test.test), qtext, norm_stmt(stale[0].assign), family))
+        leaf = [s for s in leaf if not isinstance(s, StaleTest)]
         writes = [parse_write(s, fname) for s in leaf]
         wparts = [w for w in writes if w is not None]
         raises = [s for s in leaf if isinstance(s, ast.Raise)]
